@@ -206,6 +206,23 @@ pub fn rec_decode(a: &Args, out: &mut Out) {
             k += 1;
             decode_events(&f, k % hook_every == 0, out, tag);
         }
+        // byte-truncations of frames the ENCODER produced (library-generated frame, decoded, built again):
+        // every proper cut removes bits the decoder needs, so each must decode to Corrupt
+        for _ in 0..2 {
+            if let Some(t) = template(&mut r, num) {
+                if let Ok(Ok(f)) = guarded(|| MessageBuilder::new().build_message(&t).map(|f| f.to_vec())) {
+                    let plen = f.len() - 6;
+                    let step = (plen / 120).max(1);
+                    let mut cut = 2;
+                    while cut < plen {
+                        k += 1;
+                        let g = mk_frame(&f[3..3 + cut], 0);
+                        decode_events_parent(&g, &f, out);
+                        cut += if cut + 8 >= plen { 1 } else { step };
+                    }
+                }
+            }
+        }
         // one untouched generated frame per type
         if let Some(f) = lib_frame(&mut r, num) {
             decode_events(&f, true, out, "generated");
@@ -270,6 +287,28 @@ pub fn rec_classify(a: &Args, out: &mut Out) {
             }
         }
     }
+}
+
+/// decode a byte-truncation of an encoder-produced frame; the event carries the parent frame
+fn decode_events_parent(frame: &[u8], parent: &[u8], out: &mut Out) {
+    enter(frame);
+    let res = guarded(|| match MessageFrame::new(frame) {
+        Ok(mf) => Some(mf.get_message()),
+        Err(_) => None,
+    });
+    leave();
+    let mut e = match &res {
+        Ok(Some(m)) => describe_message(m),
+        Ok(None) => json!({"out": "notaframe"}),
+        Err(p) => json!({"out": "panic", "panic": p}),
+    };
+    e["ev"] = json!("Decode");
+    e["frame"] = bytes_json(frame);
+    e["parent"] = bytes_json(parent);
+    e["tag"] = json!("encoder-cut");
+    e["hooked"] = json!(false);
+    out.emit(e);
+    out.emit(json!({"ev": "DecodeEnd", "parse_failed": false}));
 }
 
 /// decode the first frame of a longer buffer (the frame is presented inside the buffer, not cut out)
